@@ -95,7 +95,7 @@ package badger
 // tombstones included, of every datum in the interval) and the per-datum group boundary is the
 // MaxVersionKey of the datum currently being collected.
 //@ func BadgerDB.versionedRange
-//@   prop C05
+//@   prop C05 C06
 //@   safety_off
 //@   calls_havoc
 //@   modifies *
@@ -109,6 +109,7 @@ package badger
 //@   assert at "for it.Seek(minKey); it.Valid(); it.Next() {": sameslice(minKey, gMin)
 //@   assert at "if bytes.Compare(kv.K, maxKey) > 0 {": sameslice(maxKey, gMax)
 //@   invariant loop 1: sameslice(maxVersionKey, vctx.MaxVersionKey(curTK).0)
+//@   assert at "values = append(values, kv)": bytescmp(kv.K, maxKey) <= 0
 
 // DeleteRange: every delete issued into a batch is committed before a successful return
 // (ghost pending = deletes in the current, not yet committed batch), and an error reported by the
